@@ -27,15 +27,15 @@ Proof. intros Hc Hr. unfold X.get_id. rewrite Hc. cbn [andb]. destruct (negb (X.
     destruct (X.before_last 46 _) as [t|] eqn:E; [exact (before_last_no_c 62 46 _ Ha t E)|exact Ha]. Qed.
 
 (* the document header with the default parameters: everything but the title is a literal *)
-Lemma doc_header_run title s : params s = default_params -> X.epub s = false -> balanced_chunk title ->
+Lemma doc_header_run title s : params s = default_params -> balanced_chunk title ->
   run (X.doc_header title s) (Txt, []) = (Txt, [R "body"; R "html"]).
-Proof. intros Hp He Ht. unfold X.doc_header, X.common_header, lang, X.epub3. rewrite Hp, He.
+Proof. intros Hp Ht. unfold X.doc_header, X.common_header, lang, X.epub3. rewrite Hp.
   change (assoc (R "xhtml-version") default_params) with (@None str). change (assoc (R "lang") default_params) with (Some (R "en")).
+  change (assoc (R "epub-version") default_params) with (@None str). change (has_key (R "epub-css") default_params) with false.
   change (assoc (R "xhtml-favicon") default_params) with (@None str). change (assoc (R "xhtml-css") default_params) with (@None str).
-  cbn [andb negb orb].
   assert (Htt : balanced_chunk (match title with [] => [] | _ => R "    <title>" ++ title ++ R "</title>" ++ NLs end)).
   { intro S. destruct title as [|c0 r0] eqn:E; [reflexivity|]. rewrite <- E in *. norm. rewrite Ht. norm. reflexivity. }
-  norm. rewrite Htt. norm. reflexivity. Qed.
+  destruct (X.epub s); cbn [andb negb orb]; norm; rewrite Htt; norm; reflexivity. Qed.
 Lemma go_up_default s : params s = default_params -> X.go_up s = R "Index".
 Proof. intro Hp. unfold X.go_up, X.param, lang. rewrite Hp. reflexivity. Qed.
 Lemma custom_file_names_default s : params s = default_params -> X.custom_file_names s = false.
@@ -71,8 +71,8 @@ Lemma Side_change_gen K K' BASE MD s s' : FragB.Side K BASE MD s -> mtags s' = m
   umacros s' = umacros s -> bf s' = bf s -> dtags s' = dtags s -> verse s' = verse s -> format s' = format s -> mode s' = mode s ->
   panicked s' = panicked s -> ivars s' = ivars s -> params s' = params s -> toc s' = fst K' -> lox_toc s' = snd K' ->
   lox_lof s' = lox_lof s -> lox_lot s' = lox_lot s -> lox_lop s' = lox_lop s ->
-  Forall file_ok (files s') -> balanced_chunk (navtext s') -> Forall nav_ok (lox_nav s') -> FragB.Side K' BASE MD s'.
-Proof. intros [A1 A3 A4 A5 A6 A7 A8 A9 A10 A11 A12 A13 A14 A15 A16 A17 A18 A19 A20 A21 A22 A23] E1 E3 E4 E5 E6 E7 E8 E9 E10 E11 E12 E13 E14 E15 E16 E17 E18 E19 E20 E21 E22 E23.
+  Forall file_ok (files s') -> balanced_chunk (navtext s') -> Forall nav_ok (lox_nav s') -> images s' = images s -> FragB.Side K' BASE MD s'.
+Proof. intros [A1 A3 A4 A5 A6 A7 A8 A9 A10 A11 A12 A13 A14 A15 A16 A17 A18 A19 A20 A21 A22 A23 A24] E1 E3 E4 E5 E6 E7 E8 E9 E10 E11 E12 E13 E14 E15 E16 E17 E18 E19 E20 E21 E22 E23 E24.
   split; try congruence; try (unfold fmt in *; rewrite E11; exact A11); try (rewrite E1; exact A1); try (rewrite E12; exact A12). Qed.
 
 Section FileChange.
@@ -86,73 +86,91 @@ Lemma nth_error_ok {A} (Q : A -> Prop) l i e : Forall Q l -> nth_error l i = Som
 Proof. intros H E. rewrite Forall_forall in H. exact (H e (nth_error_In _ _ E)). Qed.
 
 (* FileChange, at a point where nothing is open and no paragraph is buffered *)
-Lemma file_change_spec title s : Side s -> MD = 2%nat -> Inv s -> par s = false -> elems s = [] -> balanced_chunk title ->
+Lemma file_change_spec title s : Side s -> MD = 2%nat \/ MD = 3%nat -> Inv s -> par s = false -> elems s = [] -> balanced_chunk title ->
   let r := X.file_change title s in
   Side r /\ Inv r /\ view r = view s /\ sblock r = sblock s /\ process r = process s /\ has_cur r = has_cur s.
 Proof. intros HS Hmd HI Hp Hel Ht.
   pose proof (sd_pa _ _ _ _ HS) as Hpa. fold default_params in Hpa.
-  destruct (sd_mode _ _ _ _ HS) as [Hm Hb]. rewrite Hmd in Hm.
-  assert (HB : BASE = [R "body"; R "html"]) by (destruct Hb as [[Hx _]|[_ Hx]]; [rewrite Hmd in Hx; discriminate|exact Hx]).
-  assert (He : X.epub s = false) by (unfold X.epub; rewrite Hm; reflexivity).
+  destruct (sd_mode _ _ _ _ HS) as [Hm Hb].
+  assert (HB : BASE = [R "body"; R "html"]) by (destruct Hb as [[Hx _]|[_ Hx]]; [destruct Hmd as [Hy|Hy]; rewrite Hy in Hx; discriminate|exact Hx]).
   assert (Hbuf : buf s = []) by (apply (inv_buf _ HI Hp)).
   assert (Hrun : run (flat (wout s)) (Txt, []) = (Txt, [R "body"; R "html"])).
   { destruct HI as [A _ _]. unfold out in A. rewrite Hbuf, flat_nil, app_nil_r, Hel, HB in A. exact A. }
   pose proof (sd_nav _ _ _ _ HS) as Hnav.
-  unfold X.file_change. rewrite He.
-  (* the file being left: navigation bar kept from its start, footer *)
-  set (s1 := match navtext s with [] => s | n => (wo n s) <| navtext := [] |> end).
-  assert (H1 : flat (wout s1) = flat (wout s) ++ navtext s /\ s1 <| wout := [] |> <| navtext := [] |> = s <| wout := [] |> <| navtext := [] |>).
-  { unfold s1. destruct (navtext s) as [|c0 n0] eqn:En; [rewrite app_nil_r; split; reflexivity|]. split; [apply flat_cons|reflexivity]. }
-  destruct H1 as [Hw1 Hs1].
-  assert (Hf1 : params s1 = params s /\ mode s1 = mode s /\ cid s1 = cid s /\ curfile s1 = curfile s /\ files s1 = files s /\ toc s1 = toc s /\ lox_nav s1 = lox_nav s).
-  { unfold s1. destruct (navtext s); repeat split; reflexivity. }
-  destruct Hf1 as (Hp1 & Hm1 & Hc1 & Hcf1 & Hfl1 & Ht1 & Hn1).
+  unfold X.file_change.
+  (* the file being left: navigation bar kept from its start (none in an EPUB), footer *)
+  set (s1 := if X.epub s then s else match navtext s with [] => s | n => (wo n s) <| navtext := [] |> end).
+  assert (H1 : exists nv nt, balanced_chunk nv /\ balanced_chunk nt /\ flat (wout s1) = flat (wout s) ++ nv /\ navtext s1 = nt /\
+               s1 <| wout := [] |> <| navtext := [] |> = s <| wout := [] |> <| navtext := [] |>).
+  { unfold s1. destruct (X.epub s).
+    - exists [], (navtext s). rewrite app_nil_r. split; [intro; reflexivity|]. split; [exact Hnav|]. split; [reflexivity|]. split; reflexivity.
+    - destruct (navtext s) as [|c0 n0] eqn:En.
+      + exists [], []. rewrite app_nil_r. split; [intro; reflexivity|]. split; [intro; reflexivity|]. split; [reflexivity|]. split; [exact En|reflexivity].
+      + exists (c0 :: n0), []. split; [exact Hnav|]. split; [intro; reflexivity|]. split; [apply flat_cons|]. split; reflexivity. }
+  destruct H1 as (nv & nt & Hnv & Hnt & Hw1 & Hn1t & Hs1).
+  assert (Hf1 : params s1 = params s /\ mode s1 = mode s /\ curfile s1 = curfile s /\ files s1 = files s /\ lox_nav s1 = lox_nav s).
+  { unfold s1. destruct (X.epub s); [repeat split; reflexivity|]. destruct (navtext s); repeat split; reflexivity. }
+  destruct Hf1 as (Hp1 & Hm1 & Hcf1 & Hfl1 & Hn1).
+  clearbody s1.
   set (s2 := wo X.doc_footer s1).
   assert (Hcfn : X.custom_file_names s2 = false) by (apply custom_file_names_default; exact (eq_trans Hp1 Hpa)). rewrite Hcfn. cbn [andb].
-  assert (He2 : X.epub s2 = false) by (unfold X.epub; change (mode s2) with (mode s1); rewrite Hm1, Hm; reflexivity). rewrite He2.
-  set (name := [] ++ X.fprefix s2 ++ R "-" ++ X.chapname s2 ++ X.suffix s2).
+  set (name := (if X.epub s2 then R "EPUB/" else []) ++ X.fprefix s2 ++ R "-" ++ X.chapname s2 ++ X.suffix s2).
   set (s3 := s2 <| files ::= fun l => l ++ [(curfile s2, flat (wout s2))] |> <| wout := [] |> <| curfile := name |>).
   assert (Hp3 : params s3 = default_params) by exact (eq_trans Hp1 Hpa).
-  assert (He3 : X.epub s3 = false) by exact He2.
   set (dh := X.doc_header title s3).
   assert (Hdh : run dh (Txt, []) = (Txt, [R "body"; R "html"])) by (apply doc_header_run; assumption).
-  set (s4 := wo dh s3). assert (He4 : X.epub s4 = false) by exact He2. rewrite He4.
-  rewrite (go_up_default s4 Hp3).
-  set (navc := (pcount (toc s4) + ccount (toc s4))%nat).
-  set (prev := if Nat.ltb 1 navc then nth_error (lox_nav s4) (navc - 2) else None).
-  set (next := if Nat.ltb navc (List.length (lox_nav s4)) then nth_error (lox_nav s4) navc else None).
-  fold (nav_bar prev next (R "Index")).
-  assert (Hln : Forall (nav_ok) (lox_nav s4)) by (change (lox_nav s4) with (lox_nav s1); rewrite Hn1; exact (sd_lnav _ _ _ _ HS)).
-  assert (Hnb : balanced_chunk (nav_bar prev next (R "Index"))).
-  { apply nav_bar_balanced; [| |intro; reflexivity].
-    - intros e E. unfold prev in E. destruct (Nat.ltb 1 navc); [exact (nth_error_ok nav_ok _ _ e Hln E)|discriminate].
-    - intros e E. unfold next in E. destruct (Nat.ltb navc _); [exact (nth_error_ok nav_ok _ _ e Hln E)|discriminate]. }
-  set (nav := nav_bar prev next (R "Index")) in *. clearbody nav dh name.
-  (* the state reached: s with the output restarted, one more file, the new navigation bar kept *)
-  set (r := wo nav (s4 <| navtext := nav |>)).
-  assert (Er : r = s <| wout := [nav; dh] |> <| navtext := nav |> <| files := files s ++ [(curfile s, flat (wout s) ++ navtext s ++ X.doc_footer)] |> <| curfile := name |>).
-  { unfold r, s4, s3, s2. change (curfile (wo X.doc_footer s1)) with (curfile s1). change (wout (wo X.doc_footer s1)) with (X.doc_footer :: wout s1).
+  set (s4 := wo dh s3).
+  assert (Er0 : forall nav' nt', s4 <| navtext := nt' |> <| wout ::= app nav' |> =
+     s <| wout := nav' ++ [dh] |> <| navtext := nt' |> <| files := files s ++ [(curfile s, flat (wout s) ++ nv ++ X.doc_footer)] |> <| curfile := name |>).
+  { intros nav' nt'. unfold s4, s3, s2. change (curfile (wo X.doc_footer s1)) with (curfile s1). change (wout (wo X.doc_footer s1)) with (X.doc_footer :: wout s1).
     rewrite flat_cons, Hw1, Hcf1, <- app_assoc.
-    transitivity ((s1 <| wout := [] |> <| navtext := [] |>) <| wout := [nav; dh] |> <| navtext := nav |> <| files := files s1 ++ [(curfile s, flat (wout s) ++ navtext s ++ X.doc_footer)] |> <| curfile := name |>); [reflexivity|].
+    transitivity ((s1 <| wout := [] |> <| navtext := [] |>) <| wout := nav' ++ [dh] |> <| navtext := nt' |> <| files := files s1 ++ [(curfile s, flat (wout s) ++ nv ++ X.doc_footer)] |> <| curfile := name |>); [reflexivity|].
     rewrite Hs1, Hfl1. reflexivity. }
-  clearbody r. subst r.
-  split; [|split; [|repeat split; reflexivity]].
-  - apply (Side_change_gen K K BASE MD s _ HS); try reflexivity; [exact (sd_toc _ _ _ _ HS)|exact (sd_lox _ _ _ _ HS)| |exact Hnb|exact (sd_lnav _ _ _ _ HS)].
-    apply Forall_app. split; [exact (sd_files _ _ _ _ HS)|]. constructor; [|constructor].
-    unfold file_ok. cbn [snd]. rewrite run_app, Hrun, run_app, Hnav. vm_compute. reflexivity.
-  - split; [|intros _; exact Hbuf|exact (inv_fmt _ HI)].
-    change (out _) with (flat [nav; dh] ++ flat (buf s)). change (elems _) with (elems s).
-    rewrite Hbuf, Hel, !flat_cons, flat_nil, !app_nil_r. cbn [app]. rewrite run_app, Hdh, Hnb, HB. reflexivity.
+  assert (Hfile : file_ok (curfile s, flat (wout s) ++ nv ++ X.doc_footer)).
+  { unfold file_ok. cbn [snd]. rewrite run_app, Hrun, run_app, Hnv. vm_compute. reflexivity. }
+  assert (He4 : X.epub s4 = X.epub s) by (unfold X.epub; change (mode s4) with (mode s1); rewrite Hm1; reflexivity).
+  rewrite He4. destruct (X.epub s) eqn:He.
+  - (* EPUB: no navigation bar *)
+    assert (Er : s4 = s <| wout := [dh] |> <| navtext := nt |> <| files := files s ++ [(curfile s, flat (wout s) ++ nv ++ X.doc_footer)] |> <| curfile := name |>).
+    { transitivity (s4 <| navtext := nt |> <| wout ::= app [] |>); [rewrite <- Hn1t; unfold s4, s3, s2; destruct s1; reflexivity|].
+      rewrite (Er0 [] nt). reflexivity. }
+    clearbody s4 dh name. subst s4.
+    split; [|split; [|repeat split; reflexivity]].
+    + apply (Side_change_gen K K BASE MD s _ HS); try reflexivity; [exact (sd_toc _ _ _ _ HS)|exact (sd_lox _ _ _ _ HS)| |exact Hnt|exact (sd_lnav _ _ _ _ HS)].
+      apply Forall_app. split; [exact (sd_files _ _ _ _ HS)|]. constructor; [exact Hfile|constructor].
+    + split; [|intros _; exact Hbuf|exact (inv_fmt _ HI)].
+      change (out _) with (flat [dh] ++ flat (buf s)). change (elems _) with (elems s).
+      rewrite Hbuf, Hel, !flat_cons, flat_nil, !app_nil_r. cbn [app]. rewrite Hdh, HB. reflexivity.
+  - rewrite (go_up_default s4 Hp3).
+    set (navc := (pcount (toc s4) + ccount (toc s4))%nat).
+    set (prev := if Nat.ltb 1 navc then nth_error (lox_nav s4) (navc - 2) else None).
+    set (next := if Nat.ltb navc (List.length (lox_nav s4)) then nth_error (lox_nav s4) navc else None).
+    fold (nav_bar prev next (R "Index")).
+    assert (Hln : Forall (nav_ok) (lox_nav s4)) by (change (lox_nav s4) with (lox_nav s1); rewrite Hn1; exact (sd_lnav _ _ _ _ HS)).
+    assert (Hnb : balanced_chunk (nav_bar prev next (R "Index"))).
+    { apply nav_bar_balanced; [| |intro; reflexivity].
+      - intros e E. unfold prev in E. destruct (Nat.ltb 1 navc); [exact (nth_error_ok nav_ok _ _ e Hln E)|discriminate].
+      - intros e E. unfold next in E. destruct (Nat.ltb navc _); [exact (nth_error_ok nav_ok _ _ e Hln E)|discriminate]. }
+    set (nav := nav_bar prev next (R "Index")) in *. clearbody nav.
+    set (r := wo nav (s4 <| navtext := nav |>)).
+    assert (Er : r = s <| wout := [nav; dh] |> <| navtext := nav |> <| files := files s ++ [(curfile s, flat (wout s) ++ nv ++ X.doc_footer)] |> <| curfile := name |>) by exact (Er0 [nav] nav).
+    clearbody r dh name. subst r.
+    split; [|split; [|repeat split; reflexivity]].
+    + apply (Side_change_gen K K BASE MD s _ HS); try reflexivity; [exact (sd_toc _ _ _ _ HS)|exact (sd_lox _ _ _ _ HS)| |exact Hnb|exact (sd_lnav _ _ _ _ HS)].
+      apply Forall_app. split; [exact (sd_files _ _ _ _ HS)|]. constructor; [exact Hfile|constructor].
+    + split; [|intros _; exact Hbuf|exact (inv_fmt _ HI)].
+      change (out _) with (flat [nav; dh] ++ flat (buf s)). change (elems _) with (elems s).
+      rewrite Hbuf, Hel, !flat_cons, flat_nil, !app_nil_r. cbn [app]. rewrite run_app, Hdh, Hnb, HB. reflexivity.
 Qed.
 End FileChange.
 
 (* references to headers never contain '>' (they are written as attribute values) *)
 Lemma dec2_no_gt n : no_c 62 (X.dec2 n) = true.
 Proof. unfold X.dec2. destruct (Nat.ltb n 10); [rewrite no_c_app|]; rewrite dec_no_gt; reflexivity. Qed.
-Lemma gen_ref_no_gt s prefix id hasfile : params s = default_params -> X.epub s = false -> no_c 62 prefix = true -> no_c 62 id = true ->
+Lemma gen_ref_no_gt s prefix id hasfile : params s = default_params -> no_c 62 prefix = true -> no_c 62 id = true ->
   no_c 62 (X.gen_ref_s s prefix id hasfile) = true.
-Proof. intros Hp He Hpre Hid. unfold X.gen_ref_s.
-  assert (Hsuf : no_c 62 (X.suffix s) = true) by (unfold X.suffix; rewrite He; reflexivity).
+Proof. intros Hp Hpre Hid. unfold X.gen_ref_s.
+  assert (Hsuf : no_c 62 (X.suffix s) = true) by (unfold X.suffix; destruct (X.epub s); reflexivity).
   assert (Hfile : no_c 62 (X.fprefix s ++ R "-" ++ X.chapname s ++ X.suffix s) = true).
   { unfold X.fprefix, X.chapname. rewrite (custom_file_names_default s Hp), Hp. cbn [andb]. change (assoc (R "xhtml-chap-prefix") default_params) with (@None str).
     rewrite !no_c_app, dec_no_gt, dec2_no_gt, Hsuf. reflexivity. }
@@ -163,8 +181,89 @@ Proof. intros Hp He Hpre Hid. unfold X.gen_ref_s.
 Lemma header_ref_no_gt K BASE MD s : FragB.Side K BASE MD s -> no_c 62 (header_reference s) = true.
 Proof. intro HS. unfold header_reference. rewrite (sd_fmt _ _ _ _ HS). unfold X.header_reference.
   pose proof (sd_pa _ _ _ _ HS) as Hp. fold default_params in Hp.
-  pose proof (proj2 (Side_multi _ _ _ _ HS)) as He.
   rewrite (custom_ids_default s Hp).
   destruct (_ || _); [apply gen_ref_no_gt; try assumption; try reflexivity; apply dec_no_gt|].
   destruct (negb (X.multi s)); apply gen_ref_no_gt; try assumption; try reflexivity; [apply dec_no_gt|].
   rewrite !no_c_app, !dec_no_gt. reflexivity. Qed.
+
+(* ---------- EPUB: the files epubGen writes at Reset ---------- *)
+Lemma toc_string_nomini_eqd d opts s : flag "mini" opts = false -> snd (X.toc_string d opts s) ~~ s.
+Proof. intro Hmini. unfold X.toc_string. destruct (lox_toc s) as [|e0 l0]; [apply err_eqd|]. cbv zeta. rewrite Hmini. cbn [andb].
+  destruct d; cbn [snd]; try reflexivity.
+  destruct (opt "title" opts) as [t0|]; [|reflexivity].
+  pose proof (render_text_eqd t0 s) as H. destruct (render_text t0 s) as [x s1]. exact H. Qed.
+
+(* equality up to the log and the files written *)
+Definition ndf (s : st) : st := s <| diags := [] |> <| files := [] |>.
+Definition eqdf (a b : st) : Prop := ndf a = ndf b.
+Lemma eqdf_trans a b c : eqdf a b -> eqdf b c -> eqdf a c. Proof. unfold eqdf; congruence. Qed.
+Lemma eqd_eqdf a b : a ~~ b -> eqdf a b.
+Proof. unfold eqd, eqdf. intro H. change (ndf a) with ((nd a) <| files := [] |>). change (ndf b) with ((nd b) <| files := [] |>). rewrite H. reflexivity. Qed.
+Lemma add_eqdf f s : eqdf (s <| files ::= f |>) s. Proof. destruct s; reflexivity. Qed.
+Lemma eqdf_get {A} (g : st -> A) a b : (forall s, g (ndf s) = g s) -> eqdf a b -> g a = g b.
+Proof. intros Hg H. rewrite <- (Hg a), <- (Hg b). unfold eqdf in H. rewrite H. reflexivity. Qed.
+Lemma balanced_file n c : balanced_chunk c -> file_ok (n, c). Proof. intro H. exact (H []). Qed.
+
+Lemma epub_gen_spec K BASE MD r : FragB.Side K BASE MD r -> Forall entry_ok (lox_toc r) ->
+  eqdf (X.epub_gen r) r /\ Forall file_ok (files (X.epub_gen r)).
+Proof. intros HS Hok. pose proof (sd_pa _ _ _ _ HS) as Hp. fold default_params in Hp.
+  unfold X.epub_gen. rewrite Hp. change (has_key (R "document-title") default_params) with false. cbv iota.
+  set (s0 := err "EPUB requires document-title parameter to be set" r).
+  assert (E0 : eqdf s0 r) by (apply eqd_eqdf, err_eqd).
+  assert (F0 : Forall file_ok (files s0)) by (unfold s0, err; destruct (quiet r); [|destruct (cloc r) as [[[? ?] ?]|]]; exact (sd_files _ _ _ _ HS)).
+  (* what the generators read *)
+  assert (G : forall s, eqdf s r -> params s = default_params /\ fmt s = FX /\ Forall entry_ok (lox_toc s) /\ images s = []).
+  { intros s E. split; [rewrite (eqdf_get params _ _ (fun _ => eq_refl) E); exact Hp|].
+    split; [unfold fmt; rewrite (eqdf_get format _ _ (fun _ => eq_refl) E); exact (sd_fmt _ _ _ _ HS)|].
+    split; [rewrite (eqdf_get lox_toc _ _ (fun _ => eq_refl) E); exact Hok|rewrite (eqdf_get images _ _ (fun _ => eq_refl) E); exact (sd_img _ _ _ _ HS)]. }
+  assert (Ht : X.param "document-title" s0 = []) by (unfold X.param; rewrite (proj1 (G s0 E0)); reflexivity). rewrite Ht.
+  clearbody s0.
+  set (s1 := s0 <| files ::= fun l => l ++ [(R "mimetype", R "application/epub+zip")] |>).
+  assert (E1 : eqdf s1 r) by (eapply eqdf_trans; [exact (add_eqdf _ s0)|exact E0]).
+  assert (F1 : Forall file_ok (files s1)) by (apply Forall_app; split; [exact F0|constructor; [reflexivity|constructor]]).
+  rewrite (proj2 (proj2 (proj2 (G s1 E1)))). cbn [fold_left]. clearbody s1.
+  set (s3 := s1 <| files ::= fun l => l ++ [(R "META-INF/container.xml", X.container_xml)] |>).
+  assert (E3 : eqdf s3 r) by (eapply eqdf_trans; [exact (add_eqdf _ s1)|exact E1]).
+  assert (F3 : Forall file_ok (files s3)) by (apply Forall_app; split; [exact F1|constructor; [exact container_xml_balanced|constructor]]).
+  clearbody s3. destruct (G s3 E3) as (Hp3 & Hf3 & Hok3 & Him3).
+  (* the package file *)
+  assert (Hopf : balanced_chunk (fst (X.content_opf [] s3)) /\ snd (X.content_opf [] s3) = s3).
+  { split.
+    - apply content_opf_balanced; try (intro; reflexivity); unfold X.param, lang; rewrite ?Hp3; try (intro; reflexivity).
+      + apply Forall_forall. intros e He. unfold X.chap_entries in He. apply filter_In in He as [He _].
+        rewrite Forall_forall in Hok3. destruct (Hok3 e He) as [Hr _ _]. split; [|exact Hr].
+        apply get_id_no_gt; [apply custom_ids_default; exact Hp3|exact Hr].
+      + rewrite Him3. constructor.
+    - unfold X.content_opf. cbv zeta. rewrite Him3. reflexivity. }
+  destruct (X.content_opf [] s3) as [opf s4]. cbn [fst snd] in Hopf. destruct Hopf as [Hopf ->].
+  set (s5 := s3 <| files ::= fun l => l ++ [(R "EPUB/content.opf", opf)] |>).
+  assert (E5 : eqdf s5 r) by (eapply eqdf_trans; [exact (add_eqdf _ s3)|exact E3]).
+  assert (F5 : Forall file_ok (files s5)) by (apply Forall_app; split; [exact F3|constructor; [exact (balanced_file _ _ Hopf)|constructor]]).
+  clearbody s5. destruct (G s5 E5) as (Hp5 & Hf5 & Hok5 & Him5).
+  assert (He3 : X.epub3 s5 = true) by (unfold X.epub3; rewrite Hp5; reflexivity). rewrite He3.
+  (* the navigation document *)
+  assert (Hnav : balanced_chunk (fst (X.nav_xhtml [] s5)) /\ snd (X.nav_xhtml [] s5) ~~ s5).
+  { split.
+    - apply nav_xhtml_balanced; try assumption; unfold X.param, lang; rewrite ?Hp5; try (intro; reflexivity). reflexivity.
+    - unfold X.nav_xhtml. pose proof (toc_string_nomini_eqd X.DNav (mkPo [] [] []) s5 eq_refl) as H. destruct (X.toc_string X.DNav (mkPo [] [] []) s5) as [t sx]. exact H. }
+  destruct (X.nav_xhtml [] s5) as [nv s5']. cbn [fst snd] in Hnav. destruct Hnav as [Hnav E5'].
+  set (s6 := s5' <| files ::= fun l => l ++ [(R "EPUB/nav.xhtml", nv)] |>).
+  assert (E6 : eqdf s6 r) by (eapply eqdf_trans; [exact (add_eqdf _ s5')|]; eapply eqdf_trans; [apply eqd_eqdf; exact E5'|exact E5]).
+  assert (F6 : Forall file_ok (files s6)).
+  { apply Forall_app; split; [rewrite (eqd_get files _ _ (fun _ => eq_refl) E5'); exact F5|constructor; [exact (balanced_file _ _ Hnav)|constructor]]. }
+  clearbody s6. destruct (G s6 E6) as (Hp6 & Hf6 & Hok6 & Him6).
+  assert (Hcss : X.param "epub-css" s6 = []) by (unfold X.param; rewrite Hp6; reflexivity). rewrite Hcss. cbv iota.
+  match goal with |- context [X.toc_ncx [] ?x] => set (s7 := x) end.
+  assert (E7 : eqdf s7 r) by (eapply eqdf_trans; [exact (add_eqdf _ s6)|exact E6]).
+  assert (F7 : Forall file_ok (files s7)) by (apply Forall_app; split; [exact F6|constructor; [reflexivity|constructor]]).
+  clearbody s7. destruct (G s7 E7) as (Hp7 & Hf7 & Hok7 & Him7).
+  (* the NCX *)
+  assert (Hncx : balanced_chunk (fst (X.toc_ncx [] s7)) /\ snd (X.toc_ncx [] s7) ~~ s7).
+  { split.
+    - apply toc_ncx_balanced; try assumption; unfold X.param, lang; rewrite ?Hp7; try (intro; reflexivity). reflexivity.
+    - unfold X.toc_ncx. pose proof (toc_string_nomini_eqd X.DNcx (mkPo [] [] []) s7 eq_refl) as H. destruct (X.toc_string X.DNcx (mkPo [] [] []) s7) as [t sx]. exact H. }
+  destruct (X.toc_ncx [] s7) as [ncx s8]. cbn [fst snd] in Hncx. destruct Hncx as [Hncx E8].
+  split.
+  - eapply eqdf_trans; [exact (add_eqdf _ s8)|]. eapply eqdf_trans; [apply eqd_eqdf; exact E8|exact E7].
+  - apply Forall_app; split; [rewrite (eqd_get files _ _ (fun _ => eq_refl) E8); exact F7|constructor; [exact (balanced_file _ _ Hncx)|constructor]].
+Qed.
